@@ -35,7 +35,10 @@ RULE = ('programs = hand-written scope programs (c16_gen.FIXED: every binder kin
         'generic x decorated x def/async def/class/lambda x nesting (c16_gen.product_programs, 156 programs) and '
         'corpus.hard_snippets(); scope walks during which yielded nodes are replaced by a node of another scope kind '
         '(deterministic kind x kind product on c16_gen.MUT_TEMPLATES + 2 random mutated walks per program), judged on the '
-        'final source and compared with the model walk of the final tree')
+        'final source and compared with the model walk of the final tree.  Round 5/6: `type` statements with bounded / '
+        'constrained type parameters x place (c16_gen.typealias_programs); every binding / declaring / reading form x '
+        'identifiers with a special look (_, __, dunder, private, soft keywords, non-ASCII, builtins) x place '
+        '(c16_gen.name_programs, ~2000 tiny programs, run first)')
 TRUSTED = [
     'modelled: _ScopeContext.create/stack_funcdef/stack_ClassDef/stack_Lambda/stack_arguments/stack_arg/stack_type_param/'
     'stack_comprehension/walk_Comp and the scope branch of walk (forward and back=True, on="enter", no send(); replacement of '
@@ -44,6 +47,7 @@ TRUSTED = [
     'asts=: modelled and swept for asts = all children of the scope node (walk root = that node); find_def() is swept against '
     'the reference (plain / kind prefix / recurse=False / dotted paths / asts= slices of the body, all with prev_found '
     'iteration), not modelled in Lean',
+    'scope_symbols(full=False): its key set is compared with the union of the five classes of the reference (not modelled in Lean)',
     'not modelled: send(), on="leave"/"both", node lists (only names) of scope_symbols, full=False, '
     'import_star=True; the ORDER of the yielded nodes (compared with the model and tallied as walk_order, not judged: a '
     'comprehension root\'s multiple `if`s come last-to-first in the forward walk, bases and keywords of a nested class are not '
@@ -200,7 +204,7 @@ def _real(src):
                 kids = [c for c in util.soc(n)]
                 wa = [ids[id(g.a)] for g in f.walk(True, scope=True, asts=kids)]
             ss = f.scope_symbols(full=True)
-            scopes.append({'walk_asts': wa,'id': ids[id(n)], 'multi': multi, 'walk': w, 'walk_sym': ws, 'walk_back': wb, 'walk_sym_back': wsb,
+            scopes.append({'walk_asts': wa, 'flat': sorted(f.scope_symbols()),'id': ids[id(n)], 'multi': multi, 'walk': w, 'walk_sym': ws, 'walk_back': wb, 'walk_sym_back': wsb,
                            'syms': {k: sorted(nm[x] for x in v) for k, v in ss.items()},
                            'names': {k: sorted(v) for k, v in ss.items()}})
     return {'f': 'C16.scopes', 'tree': tree}, scopes, ids, nodes, names, root
@@ -557,18 +561,21 @@ def _program(arg):
             exp['free'] |= walrus
             exp['local'] -= walrus
         leak = set(ref.leak.get(id(n), {}))
+        # full=False: "a simple dictionary of all the symbol names"
+        exp['flat'] = exp['load'] | exp['store'] | exp['del'] | exp['global'] | exp['nonlocal']
+        got['flat'] = set(rs['flat'])
         sigs = {}
-        for cls in L.CLASSES7:
+        for cls in L.CLASSES7 + ('flat',):
             for name in sorted(exp[cls] ^ got.get(cls, set())):
                 miss = name in exp[cls]
                 binders = set(sc.ev['store'].get(name, ()))
                 tags = ref.fi_events.get((id(sc), 'load', name), [])
-                if binders and binders <= CAPTURE and ((miss and cls in ('store', 'local')) or (not miss and cls == 'free')):
+                if binders and binders <= CAPTURE and ((miss and cls in ('store', 'local', 'flat')) or (not miss and cls == 'free')):
                     b = sorted(binders)[0]
                     sig = f'C16|scope_symbols|{b}|missing-store'
-                elif miss and cls in ('load', 'free') and tags and all(tags):
+                elif miss and cls in ('load', 'free', 'flat') and tags and all(tags):
                     sig = f'C16|scope_symbols|comp-first-iter-{tags[0]}|missing-load'
-                elif name in leak and ((not miss and cls in ('store', 'local')) or (miss and cls == 'free') ):
+                elif name in leak and ((not miss and cls in ('store', 'local', 'flat')) or (miss and cls == 'free')):
                     sig = 'C16|scope_symbols|walrus-under-lambda-in-comp|extra-store'
                 elif name in leak and sc.is_comp and not miss and cls == 'free':
                     sig = 'C16|scope_symbols|walrus-under-lambda-in-comp|extra-store'
@@ -682,6 +689,7 @@ def _program(arg):
 
 def _programs(ctx, ngen, ncorpus, nstd):
     rng = random.Random(ctx.rng.random())
+    names_first = c16_gen.name_programs()
     progs = list(c16_gen.FIXED) + c16_gen.typealias_programs() + c16_gen.programs(rng, ngen)
     rng2 = random.Random(ctx.rng.random())
     progs += corpus.programs(rng2, ncorpus, stdlib=nstd)
@@ -690,6 +698,10 @@ def _programs(ctx, ngen, ncorpus, nstd):
     out = []
     seen = set()
     r3 = random.Random(ctx.rng.random())
+    for p in names_first:       # binder form x special identifier x place: tiny programs, no mutated walks
+        if p not in seen:
+            seen.add(p)
+            out.append((p, None, None))
     for p in progs:
         if p not in seen and len(p) < 60000:
             seen.add(p)
